@@ -136,3 +136,10 @@ CHECKS["C19"] = dict(
           "run in process; after each command all bytes are compared; the trace spec checks exit codes, the file written, the byte-prefix clause, the file init names, the version show "
           "reads back and the refusal of the second init against InitExpectation(layout)."),
     note=_NOTE, ref="DESIGN.md section 6, C19")
+CHECKS["C18"] = dict(
+    technique="TLA+ spec of the meaning of a configuration (BVConfig.Effective, MC_C18) model-checked with TLC + trace validation of real config loads of one abstract configuration in six formats",
+    text=("Design level: abstract configurations (booleans absent/true/false, scopes, messages, hooks, file-entry shapes) x six formats x every accepted boolean spelling: the reader model "
+          "of each syntax yields Effective(A); tag/push require commit; defaults when absent. Conformance: seeded abstract configurations are written in all six formats with seeded "
+          "spellings and quoting, loaded with config.init and projected; the trace spec compares every setting and the set of (file, pattern) pairs with Effective(A) and checks with its "
+          "own Search that the pattern attached to the config file matches the file's current_version line; sibling projects differing only in syntax must load and `show` identically."),
+    note=_NOTE, ref="DESIGN.md section 6, C18")
